@@ -718,7 +718,15 @@ Bytes random_trailing(Rng &rng) {
     t += genstream(ss, Bytes(), rng).bytes;
     break;
   }
-  case 10: t = "bZh9"; t.append(rng.below(20), 'k'); break;
+  case 10: {
+    if (rng.below(2)) { t = "bZh9"; t.append(rng.below(20), 'k'); break; }
+    // a near-miss header (digit outside 1-9) followed by the body of a complete valid stream: ignored as a whole
+    static const char nm[] = {'0', ':', ';', '<', '=', '>', '?', 'A', '/'};
+    std::vector<StreamSpec> ss(1); ss[0].level = 9; BlockSpec b; b.plain = random_block_plain(rng, 200); ss[0].blocks.push_back(b);
+    t = genstream(ss, Bytes(), rng).bytes;
+    t[3] = nm[rng.below(sizeof nm)];
+    break;
+  }
   default: t.assign(1, (char)(rng.below(255) + 1 == 'B' ? 'C' : rng.below(255) + 1)); if (t[0] == 'B') t[0] = 'C'; break;
   }
   return t;
